@@ -3,6 +3,7 @@ package v2proto
 import (
 	"encoding/hex"
 	"fmt"
+	"regexp"
 	"strings"
 
 	"github.com/onosproject/onos-config/verifharness/internal/fw"
@@ -267,7 +268,32 @@ func chainDone(s *State, target, idx int) bool {
 func monitorC02(c fw.Case, outs []string) []string {
 	var fails []string
 	lastMerge := map[int]int{}
+	merged := map[string]bool{} // proposals whose own commit step advanced the committed index to them
+	sent := map[string]bool{}   // proposals one of whose own steps reached the device with a request
 	for _, st := range steps(c, outs) {
+		if strings.HasPrefix(st.actor, "prop:") {
+			f := strings.Split(st.actor, ":")
+			t, idx := atoi(f[1]), atoi(f[2])
+			k := fmt.Sprintf("%d-%d", t, idx)
+			pb, pa := st.before.Prop[k], st.after.Prop[k]
+			if ca, cb := st.before.Cfg[t], st.after.Cfg[t]; ca != nil && cb != nil && pb != nil &&
+				pb.Commit == "o" && ca.Committed != idx && cb.Committed == idx {
+				merged[k] = true
+			}
+			for _, r := range st.after.Log[len(st.before.Log):] {
+				if r.Target == t {
+					sent[k] = true // accepted or refused: the device was sent the change
+				}
+			}
+			if pb != nil && pa != nil {
+				if pb.Commit != "d" && pa.Commit == "d" && !merged[k] {
+					fails = append(fails, fmt.Sprintf("commit-without-merge: proposal %s is marked COMMITTED but none of its steps merged it into the configuration (committed index %d)", k, st.after.Cfg[t].Committed))
+				}
+				if pb.Apply != "d" && pa.Apply == "d" && !sent[k] {
+					fails = append(fails, fmt.Sprintf("applied-never-sent: proposal %s is marked APPLIED but no request of it ever reached the device", k))
+				}
+			}
+		}
 		for t, cb := range st.after.Cfg {
 			ca := st.before.Cfg[t]
 			if ca == nil {
@@ -300,6 +326,9 @@ func monitorC02(c fw.Case, outs []string) []string {
 			}
 			if cfg.Committed < idx {
 				fails = append(fails, fmt.Sprintf("apply-before-merge: change %d of target %d sent while committed index is %d", idx, t, cfg.Committed))
+			}
+			if !merged[fmt.Sprintf("%d-%d", t, idx)] {
+				fails = append(fails, fmt.Sprintf("apply-unmerged: change %d of target %d sent although it was never merged into the stored configuration", idx, t))
 			}
 			if !chainDone(st.before, t, idx) {
 				fails = append(fails, fmt.Sprintf("apply-order: change %d of target %d sent before an earlier proposal finished", idx, t))
@@ -456,7 +485,24 @@ func devEq(a, b map[string]string) bool {
 // nothing at all.
 func monitorC11(c fw.Case, outs []string) []string {
 	var fails []string
+	refused, accepted := map[string]bool{}, map[string]bool{}
 	for _, st := range steps(c, outs) {
+		// a change the device refused is never reported APPLIED, whatever writes are lost afterwards
+		if strings.HasPrefix(st.actor, "prop:") {
+			f := strings.Split(st.actor, ":")
+			t, idx := atoi(f[1]), atoi(f[2])
+			k := fmt.Sprintf("%d-%d", t, idx)
+			for _, r := range st.after.Log[len(st.before.Log):] {
+				if r.Target == t && r.Accepted {
+					accepted[k] = true
+				} else if r.Target == t {
+					refused[k] = true
+				}
+			}
+			if pb, pa := st.before.Prop[k], st.after.Prop[k]; pb != nil && pa != nil && pb.Apply != "d" && pa.Apply == "d" && refused[k] && !accepted[k] {
+				fails = append(fails, fmt.Sprintf("refusal-lost: proposal %s is marked APPLIED by %q although the device refused every request of it", k, st.line))
+			}
+		}
 		// whenever a proposal is recorded as apply-FAILED, the applied index has passed it: later
 		// transactions of the target proceed (this holds after every step, failed writes included)
 		for key, p := range st.after.Prop {
@@ -710,3 +756,22 @@ func CleanHistory(c fw.Case) bool {
 }
 
 func dirtySig(c fw.Case, outs []string, msg string) bool { return !CleanHistory(c) }
+
+var refusalLostRe = regexp.MustCompile(`proposal (\d+)-(\d+) is marked APPLIED`)
+
+// refusalWriteLostSig: the refused apply step of the proposal named in the message lost one of its writes
+// (injected failed / lost write, i.e. a crash after the configuration's applied index was advanced).
+func refusalWriteLostSig(c fw.Case, outs []string, msg string) bool {
+	m := refusalLostRe.FindStringSubmatch(msg)
+	if m == nil {
+		return false
+	}
+	actor := "prop:" + m[1] + ":" + m[2]
+	for _, ln := range c.Script {
+		f := strings.Fields(ln)
+		if len(f) >= 2 && f[0] == "v2.run" && f[1] == actor && strings.Contains(ln, "dev=fail:") && strings.Contains(ln, "inject=") {
+			return true
+		}
+	}
+	return false
+}
